@@ -135,8 +135,8 @@ func c01StartingValueScenario(t *testing.T, keySeed uint64) (res c01SVResult) {
 
 func TestVerif_C01_StartingValue(t *testing.T) {
 	vk := vkBegin(t, "C01")
-	vk.Rule("scripted Byzantine schedule (period-1 proposal of a new block by the lowest-credential Byzantine proposer after a next-threshold for V that another node already committed), 40 populations; non-trivial = period 1 reached with the Byzantine credential lowest and honest period-1 soft votes observed")
-	for ks := uint64(0); ks < 40; ks++ {
+	vk.Rule("scripted Byzantine schedule (period-1 proposal of a new block by the lowest-credential Byzantine proposer after a next-threshold for V that another node already committed), 24 populations; non-trivial = period 1 reached with the Byzantine credential lowest and honest period-1 soft votes observed")
+	for ks := uint64(0); ks < 24; ks++ {
 		res := c01StartingValueScenario(t, ks)
 		nt := res.ReachedPeriod1 && res.ByzLowest && res.HonestSoftVotesV+res.HonestSoftVotesB > 0
 		vk.Case(nt, fmt.Sprintf("startvalue/%d/%v/%v", ks, res.ByzLowest, res.Commits))
